@@ -43,7 +43,10 @@ def make_curve(rng, integer=False, small=False):
             # indentation depth below the contact point: micrometres, or a few nanometres (stiff samples)
             "depth": rng.choice([1.0e-6, 1.0e-6, 1.0e-6, 8e-9, 3e-9]),
             # time stamps: one uniform grid, a retract sampled at another rate, or a dwell between the segments
-            "tgrid": rng.choice(["uniform", "uniform", "retract-rate", "dwell"])}
+            "tgrid": rng.choice(["uniform", "uniform", "retract-rate", "dwell"]),
+            # deflection offset of raw data (in units of the maximal indentation force): the whole force column
+            # may be negative or far above zero before the offset correction
+            "foffset": rng.choice([0.0, 0.0, 0.0, -3.0, 2.5])}
     special = rng.choice(["none", "none", "hquant", "segshift"])
     if special == "hquant":
         meta.update(hquant=rng.choice([3, 8]), hnoise=0)
@@ -77,6 +80,8 @@ def build_curve(meta):
     force = f_ideal + meta["tilt"] * fmax * (tip - zmax) / (zmax + depth) + meta["drift"] * fmax * time / time[-1]
     if meta["noise"]:
         force = force + g.normal(0, meta["noise"] * fmax, n)
+    if meta.get("foffset"):
+        force = force + meta["foffset"] * fmax
     k = 0.05
     height = tip - force / k
     step = (zmax + depth) / n_app
